@@ -34,7 +34,7 @@ def one(sid, suite=True):
             out["suite_summary"] = tail[-1] if tail else r.stdout[-200:]
             m = re.search(r"(\d+) passed", out["suite_summary"])
             out["suite_passed"] = int(m.group(1)) if m else None
-            out["suite_ok"] = bool(m) and "failed" not in out["suite_summary"] and int(m.group(1)) == 1506
+            out["suite_ok"] = bool(m) and not re.search(r"\d+ (failed|error)", out["suite_summary"]) and int(m.group(1)) == 1506
         out["confirmed"] = out["demo_exit_without_patch"] == 0 and out["demo_exit_with_patch"] != 0 and (out.get("suite_ok", True))
     except Exception as e:  # noqa
         out["error"] = repr(e)
